@@ -18,6 +18,7 @@ pub fn def() -> PropDef {
                 cases_quick: 30_000,
                 cases_thorough: 150_000,
                 max_shrink_iters: 2000,
+                limit_factor: 1,
                 strategy: ser_hll::case_strategy,
                 check: ser_hll::layout,
             }),
@@ -27,6 +28,7 @@ pub fn def() -> PropDef {
                 cases_quick: 200_000,
                 cases_thorough: 600_000,
                 max_shrink_iters: 2000,
+                limit_factor: 1,
                 strategy: ser_theta::case_strategy,
                 check: ser_theta::layout,
             }),
@@ -36,6 +38,7 @@ pub fn def() -> PropDef {
                 cases_quick: 30_000,
                 cases_thorough: 120_000,
                 max_shrink_iters: 1000,
+                limit_factor: 1,
                 strategy: ser_misc::cpc_case,
                 check: ser_misc::cpc_layout,
             }),
@@ -45,6 +48,7 @@ pub fn def() -> PropDef {
                 cases_quick: 60_000,
                 cases_thorough: 150_000,
                 max_shrink_iters: 2000,
+                limit_factor: 1,
                 strategy: ser_misc::fi_case,
                 check: ser_misc::fi_layout,
             }),
@@ -54,6 +58,7 @@ pub fn def() -> PropDef {
                 cases_quick: 60_000,
                 cases_thorough: 150_000,
                 max_shrink_iters: 1000,
+                limit_factor: 1,
                 strategy: ser_misc::td_case,
                 check: ser_misc::td_layout,
             }),
@@ -63,6 +68,7 @@ pub fn def() -> PropDef {
                 cases_quick: 40_000,
                 cases_thorough: 200_000,
                 max_shrink_iters: 2000,
+                limit_factor: 1,
                 strategy: c08::case_strategy,
                 check: ser_misc::cm_layout,
             }),
@@ -72,6 +78,7 @@ pub fn def() -> PropDef {
                 cases_quick: 60_000,
                 cases_thorough: 150_000,
                 max_shrink_iters: 2000,
+                limit_factor: 1,
                 strategy: c09::case_strategy,
                 check: ser_misc::bloom_layout,
             }),
